@@ -447,8 +447,9 @@ def _kind_class(prog, path, seen=None):
                 if H.lit_value(arm[2]) is True:
                     out |= {v.rsplit("::", 1)[-1] for v in H.pat_variants(arm[0]) if "SyntaxKind" in v}
     g = prog.fn(path)
-    if g is not None:
-        for b, t in g.calls():
+    hosts = ([g] if g is not None else []) + [c for c in prog.fns.values() if c.kind == "Closure" and c.root == path]
+    for h2 in hosts:
+        for b, t in h2.calls():
             c = t.get("res") or t.get("fn") or ""
             if c.endswith("::can_cast") and "Trivia" in c:
                 out |= _kind_class(prog, c, seen)
@@ -459,7 +460,7 @@ def run_trivia(prog):
     RULE = "R-TRIVIA"
     obs = []
     sites = {
-        "token filter in front of the parser": "jrsonnet_rowan_parser::parse::{closure#1}",
+        "token filter in front of the parser": "jrsonnet_rowan_parser::parse",
         "tree builder (Sink::skip_whitespace)": "jrsonnet_rowan_parser::event::Sink::<'i>::skip_whitespace",
     }
     classes = {}
